@@ -89,6 +89,9 @@ enum Load {
     TaskCmd(u64),
     /// thread: post `m` messages (1 + 3m continuity frames; runs execute without a provider)
     Messages(u64),
+    /// thread: post `m` messages of 9000 bytes each: a line of that size bypasses the 8 KiB BufWriter of a sidecar rewrite,
+    /// so the file on disk holds frames 0..k while `rebuild_best_effort` stands between two lines
+    BigMessages(u64),
     /// task: TWO concurrent producers (actors 0 and PROD_B, as the stdout and stderr pumps of a pipes task are) emit `k`
     /// output frames each through clones of one real `TaskEmitter` (`ripd::verif::build_app_with_task_driver`)
     TwoProducers(u64),
@@ -116,6 +119,7 @@ impl Load {
             Load::Provider(k) => format!("provider{k}"),
             Load::TaskCmd(k) => format!("taskcmd{k}"),
             Load::Messages(m) => format!("messages{m}"),
+            Load::BigMessages(m) => format!("bigmessages{m}"),
             Load::TwoProducers(k) => format!("twoproducers{k}"),
             Load::MessagesTwo => "messagestwo".into(),
             Load::EndRace(k) => format!("endrace{k}"),
@@ -130,6 +134,7 @@ impl Load {
             Load::Provider(k) => json!({"load": "provider", "k": k}),
             Load::TaskCmd(k) => json!({"load": "taskcmd", "k": k}),
             Load::Messages(m) => json!({"load": "messages", "k": m}),
+            Load::BigMessages(m) => json!({"load": "bigmessages", "k": m}),
             Load::TwoProducers(k) => json!({"load": "twoproducers", "k": k}),
             Load::MessagesTwo => json!({"load": "messagestwo"}),
             Load::EndRace(k) => json!({"load": "endrace", "k": k}),
@@ -145,6 +150,7 @@ impl Load {
             "provider" => Load::Provider(k),
             "taskcmd" => Load::TaskCmd(k),
             "messages" => Load::Messages(k),
+            "bigmessages" => Load::BigMessages(k),
             "twoproducers" => Load::TwoProducers(k),
             "messagestwo" => Load::MessagesTwo,
             "endrace" => Load::EndRace(k),
@@ -170,7 +176,11 @@ struct Case {
     reads: usize,
     /// thread kind: the actor LOSS deletes the (rebuildable) continuity sidecar cache while the store is alive, at the
     /// place the schedule gives it: 1 = the whole directory data/continuity_streams, 2 = this thread's full sidecar file.
-    /// Only deletions (a well-formed stale PREFIX of the stream, the open finding of C04 / C05, is not reachable this way).
+    /// 3 = the thread's full sidecar loses the second half of its last line (what a reader sees that reads the line while it
+    /// is being appended, left on disk); 4 / 5 = NOTHING on disk is touched: the next 1 / 2 calls of `try_replay` answer as a
+    /// read that fell inside the append of the last line does (fail point `cache.replay.torn`), so the reader goes to the log
+    /// and rebuilds the sidecar of a healthy store.  With 3..5 the schedule stops that reader INSIDE the rebuild while the
+    /// producer appends and other subscribers attach (the rebuild family).
     loss: usize,
     /// grant a subscriber's snapshot step even when the harness believes the producer holds the history buffer's lock
     /// (end of run_session / finalize_snapshot: the lock is held across the snapshot write).  On today's code the
@@ -685,6 +695,15 @@ fn run_case(env: &mut Env, c: &Case) -> Outcome {
     let producer_done = Arc::new(std::sync::atomic::AtomicBool::new(false));
     let producer_b_done = Arc::new(std::sync::atomic::AtomicBool::new(driver.is_none()));
 
+    // the number of `try_replay` calls still to be answered as a torn read (Case::loss 4 / 5; armed by the LOSS actor)
+    let torn_reads = Arc::new(std::sync::atomic::AtomicUsize::new(0));
+    if c.loss >= 4 {
+        let torn = torn_reads.clone();
+        rip_kernel::verif::set_fail_hook(Some(Arc::new(move |name: &'static str| {
+            name == "cache.replay.torn" && torn.fetch_update(std::sync::atomic::Ordering::SeqCst, std::sync::atomic::Ordering::SeqCst, |k| k.checked_sub(1)).is_ok()
+        })));
+    }
+
     // ---- producer actor
     {
         let app = app.clone();
@@ -765,12 +784,13 @@ fn run_case(env: &mut Env, c: &Case) -> Outcome {
                     }
                     Kind::Thread => {
                         let id = sid.lock().unwrap().clone().unwrap();
-                        let m = match load {
-                            Load::Messages(m) => m,
-                            _ => 1,
+                        let (m, pad) = match load {
+                            Load::Messages(m) => (m, 0),
+                            Load::BigMessages(m) => (m, 9000),
+                            _ => (1, 0),
                         };
                         for i in 0..m {
-                            let (st, _) = call_json(&app, req("POST", &format!("/threads/{id}/messages"), Some(json!({"content": format!("m{i}")})))).await;
+                            let (st, _) = call_json(&app, req("POST", &format!("/threads/{id}/messages"), Some(json!({"content": format!("m{i}{}", "x".repeat(pad))})))).await;
                             assert_eq!(st, 202);
                         }
                         loop {
@@ -854,13 +874,30 @@ fn run_case(env: &mut Env, c: &Case) -> Outcome {
     if c.kind == Kind::Thread && c.loss > 0 {
         let sid = stream_id.clone();
         let data = data.clone();
-        let whole_dir = c.loss == 1;
+        let how = c.loss;
+        let torn = torn_reads.clone();
         sched.spawn(LOSS, move || {
             let dir = data.join("continuity_streams");
-            if whole_dir {
-                let _ = std::fs::remove_dir_all(&dir);
-            } else if let Some(id) = sid.lock().unwrap().clone() {
-                let _ = std::fs::remove_file(dir.join(format!("{id}.jsonl")));
+            let id = sid.lock().unwrap().clone();
+            match (how, id) {
+                (1, _) => {
+                    let _ = std::fs::remove_dir_all(&dir);
+                }
+                (2, Some(id)) => {
+                    let _ = std::fs::remove_file(dir.join(format!("{id}.jsonl")));
+                }
+                (3, Some(id)) => {
+                    let path = dir.join(format!("{id}.jsonl"));
+                    if let Ok(bytes) = std::fs::read(&path) {
+                        let body = &bytes[..bytes.len().saturating_sub(1)];
+                        let start = body.iter().rposition(|b| *b == b'\n').map(|i| i + 1).unwrap_or(0);
+                        let keep = start + (bytes.len() - start) / 2;
+                        let _ = std::fs::write(&path, &bytes[..keep]);
+                    }
+                }
+                (4, _) => torn.store(1, std::sync::atomic::Ordering::SeqCst),
+                (5, _) => torn.store(2, std::sync::atomic::Ordering::SeqCst),
+                _ => {}
             }
         });
     }
@@ -929,6 +966,9 @@ fn run_case(env: &mut Env, c: &Case) -> Outcome {
         &enabled,
     );
     Sched::uninstall();
+    if c.loss >= 4 {
+        rip_kernel::verif::set_fail_hook(None);
+    }
     {
         let mut ctl = ctl.borrow_mut();
         if let Some(a) = ctl.prev.take() {
@@ -1417,6 +1457,74 @@ fn main() {
     for k in if thorough { vec![6000u64, 3000, 1500, 20000] } else { vec![3000u64] } {
         cases.push(Case { kind: Kind::Session, load: Load::EndRace(k), subs: 5, sched: vec![], others: 0, reads: 0, loss: 0, probe: false, cap: 0 });
     }
+    // ---- THE REBUILD FAMILY (thread kind): a reader's `try_replay` is refused although the store is healthy (torn read:
+    // loss 4 / 5) or because the sidecar's last line is cut (loss 3) or the file is gone (loss 2); that reader (subscriber 1)
+    // goes to the log and rebuilds the sidecar, and the schedule stops it INSIDE `rebuild_best_effort` (`r` grants: 2 = at
+    // cache.rebuild.created, 3 = after the first line's body, ...), while the producer completes its next append (log,
+    // sidecar, broadcast) and subscriber 2 attaches (before that append / after it / subscribing before and reading the
+    // history after); then the rebuild finishes and subscriber 3 attaches.  Every subscriber must get the log's stream.
+    {
+        let mut n_rebuild = 0;
+        for load in [Load::Messages(2), Load::BigMessages(2)] {
+            let trace = producer_points(Kind::Thread, &load);
+            // adv[j]: after that many grants the producer has completed j + 1 appends and left the seq mutex
+            let adv: Vec<usize> = trace.iter().enumerate().filter(|(_, p)| **p == "cont.advanced").map(|(i, _)| i + 2).collect();
+            if adv.len() < 3 {
+                res.notes.push(format!("rebuild family: {} appends in the dry run of {} (skipped)", adv.len(), load.label()));
+                continue;
+            }
+            let big = matches!(load, Load::BigMessages(_));
+            let js: Vec<usize> = if thorough { (0..adv.len() - 1).collect() } else if big { vec![adv.len() - 2] } else { vec![1, adv.len() - 2] };
+            for j in js {
+                let frames = j + 2; // what the rebuilding reader finds in the log
+                let d = adv[j + 1] - adv[j];
+                let mut rs: Vec<usize> = vec![2, 3, 2 + frames, 2 + 2 * frames + 1];
+                if thorough {
+                    rs.extend([4, 2 + 2 * frames - 1, 2 + 2 * frames, 2 + 2 * frames + 2, 2 + 2 * frames + 4]);
+                }
+                let losses: &[usize] = if thorough { &[2, 3, 4, 5] } else if big { &[4] } else { &[3, 4] };
+                for r_ in &rs {
+                    for (il, loss) in losses.iter().enumerate() {
+                        for mode in 0..3usize {
+                            if !thorough && (r_ + il + mode) % 2 == 1 && !(big && mode == 0) {
+                                continue;
+                            }
+                            for whole in [false, true] {
+                                if whole && !thorough {
+                                    continue;
+                                }
+                                let d = if whole { trace.len() + 2 - adv[j] } else { d };
+                                let mut s = vec![0; adv[j]];
+                                s.push(LOSS);
+                                s.extend(vec![1; *r_]);
+                                match mode {
+                                    0 => {
+                                        s.extend([2, 2, 2, 2]);
+                                        s.extend(vec![0; d]);
+                                    }
+                                    1 => {
+                                        s.extend(vec![0; d]);
+                                        s.extend([2, 2, 2, 2]);
+                                    }
+                                    _ => {
+                                        s.push(2);
+                                        s.extend(vec![0; d]);
+                                        s.extend([2, 2, 2]);
+                                    }
+                                }
+                                s.extend(vec![1; 2 * frames + 20]);
+                                s.extend([3, 3, 3, 3]);
+                                cases.push(Case { kind: Kind::Thread, load: load.clone(), subs: 3, sched: s, others: 0, reads: 0, loss: *loss, probe: false, cap: 0 });
+                                n_rebuild += 1;
+                            }
+                        }
+                    }
+                }
+            }
+        }
+        res.notes.push(format!("thread: {n_rebuild} rebuild-family cases (a reader parked inside the sidecar rebuild while the producer appends and others attach)"));
+    }
+
     // ---- THE CONFIGURATION MATRIX: provider-backed session runs under every switch that changes which frames a run emits
     // (agent::Conf), subscribers attached before the run, reading along, attaching inside it and after it
     {
@@ -1811,6 +1919,14 @@ fn main() {
         }
     }
 
+    // `--only rebuild`: the rebuild family alone (development aid; the corpus stays in front)
+    if a.extra.get("only").map(|v| v == "rebuild").unwrap_or(false) {
+        let mut i = 0;
+        cases.retain(|c| {
+            i += 1;
+            i <= n_corpus || (c.loss >= 2 && c.subs == 3)
+        });
+    }
     let mut w = CaseWriter::new(&a.out, "Model.Subscribe", "check_case", "model_obs", 200);
     let mut distinct = Distinct::default();
     let mut env_slot: Option<Env> = None;
@@ -1849,6 +1965,7 @@ fn main() {
         let o = match got {
             Err(_) => {
                 Sched::uninstall();
+                rip_kernel::verif::set_fail_hook(None);
                 env_slot = None;
                 res.impl_panics += 1;
                 res.oracle_violations.push(OracleViolation { case_id: i as i64, what: "harness/implementation panicked while running the case".into(), class: "panic".into(), replay: case_json(c) });
@@ -1883,7 +2000,7 @@ fn main() {
             // shrink the schedule prefix while the same class keeps failing
             let base = c.clone();
             let cls = class.clone();
-            let sched = if c.sched.len() <= 60 && !class.starts_with("frames_skipped_after_lag") && !matches!(c.load, Load::EndRace(_)) {
+            let sched = if (c.sched.len() <= 60 || (c.loss >= 3 && c.sched.len() <= 400)) && !class.starts_with("frames_skipped_after_lag") && !matches!(c.load, Load::EndRace(_)) {
                 shrink_vec(c.sched.clone(), |s| {
                     let mut cc = base.clone();
                     cc.sched = s.to_vec();
